@@ -706,6 +706,42 @@ def finish_pipe(base, engines, chosen, pref, kind, cks):
     return ["pipe", enc_factory(all_engines, pref), enc_kind(kind), list(cks)]
 
 
+def chain_case(rng, base):
+    """3-4 stage pipelines over dedicated synthetic compilers in which an EARLY stage adds a feature that a LATER stage
+    may not support and intermediate stages keep: whether the pipeline exists depends on chaining every declared
+    resulting kind from the previous stage's (not from the requested kind)."""
+    n = rng.choice([3, 3, 4])
+    cks = rng.sample(COMPS, n)
+    v = rng.choice([None, LATEST_PROBLEM_KIND_VERSION])
+    pool = [f for f in FEATS if f not in DEPRECATED]
+    base_fs = set(rng.sample(pool, rng.randint(1, 4))) | {"ACTION_BASED"}
+    kind = fit_version(rng, base_fs, v)
+    extra = [f for f in pool if f not in kind[0]]
+    f_add = rng.sample(extra, 2)
+    engines = []
+    cur = set(kind[0])
+    for i, ck in enumerate(cks):
+        for j in range(rng.choice([1, 2])):
+            sup = set(cur) | set(rng.sample(pool, rng.randint(0, 3)))
+            if i == 0:
+                tr = ("rules", set(sub(rng, sorted(cur - {"ACTION_BASED"}), 0.3)), {f_add[0]} if j == 0 else set(f_add))
+            elif i < n - 1:
+                tr = ("id",) if rng.random() < 0.5 else ("rules", set(sub(rng, sorted(kind[0] - {"ACTION_BASED"}), 0.5)), set())
+            else:
+                tr = ("id",)
+                if rng.random() < 0.6:      # the last stage does not support what the first stage added
+                    sup -= set(f_add)
+            if i > 0 and i < n - 1:
+                sup |= set(f_add)
+            engines.append({"name": f"c{i}_{j}", "modes": ["compiler"], "kind": (sup, kind[1] if kind[1] is not None else None),
+                            "opts": [], "anys": [], "plans": [], "comps": [ck], "tr": tr})
+        if i == 0:
+            cur = set(cur) | set(f_add)
+    pref = [e["name"] for e in engines]
+    rng.shuffle(pref)
+    return finish_pipe(base, engines, [], pref, kind, cks)
+
+
 def builtin_sweep(base, full):
     """deterministic: every built-in compiler on its own full supported kind, alone and followed by every other
     built-in compilation kind, under the factory's default preference list (exercises each declared
@@ -728,6 +764,8 @@ def cases(rng, tier):
     base = base_factory_info()
     for c in builtin_sweep(base, tier != "quick"):
         yield c
+    for i in range(60 if tier == "quick" else 1500):
+        yield chain_case(rng, base)
     n = 640 if tier == "quick" else 12000
     for i in range(n):
         r = rng.random()
